@@ -129,12 +129,12 @@ class FsmArgs:
     port = FE_PORT
 
 
-def make_fsm():
+def make_fsm(fsm_cls=None):
     """a real, non-doctest FSM with the three stubs of DESIGN.md section 4"""
     import dawgie.context as ctx
     import dawgie.pl.state as state
 
-    fsm = state.FSM()
+    fsm = (fsm_cls or state.FSM)()
     fsm.wait_timeout = 0
     fsm.args = FsmArgs()
     fsm._security = types.MethodType(lambda self: None, fsm)
@@ -152,9 +152,9 @@ def quiet_site(sim):
             factory._logDateTimeCall = None
 
 
-def boot_pipeline(sim, max_steps=400):
+def boot_pipeline(sim, max_steps=400, fsm_cls=None):
     """starting -> loading -> contemplation -> running through the real triggers"""
-    fsm = make_fsm()
+    fsm = make_fsm(fsm_cls)
     fsm.starting_trigger()
     quiet_site(sim)
     r = sim.run(until=lambda: fsm.is_pipeline_active(), max_steps=sim.steps + max_steps)
